@@ -23,7 +23,8 @@ RULE = ("exhaustive over scenarios (harness/c01.py: 31 native sets x AirPlay vid
         "set, failing-connect subset) pairs, 48 MRP-tunnel / unified-RAOP configurations, five real devices as pyatv's own "
         "scanner sees them (Apple TV 4K, Apple TV 3, HomePod, Music via HSCP, AirPort Express) x every set of their protocols "
         "left enabled, Companion's REAL connect callable against a fake device with every request of its connect sequence "
-        "rejected in turn, plus seeded random ones) x {no takeover, takeover holders} x 66 feature names, on the device object "
+        "rejected in turn, plus seeded random ones) x {no takeover, takeover holders} x 66 feature names read in every public way (get_feature, "
+        "all_features() with and without include_unsupported, in_state), on the device object "
         "returned by the real pyatv.connect() and on the model (keyed by the connected set); the same oracle again (a) on "
         "every device right after each other device was set up in the same process (all ordered pairs, seeded order) and "
         "(b) after every step of random well-formed takeover/release histories with refused takeovers; non-trivial = the "
@@ -32,6 +33,8 @@ RULE = ("exhaustive over scenarios (harness/c01.py: 31 native sets x AirPlay vid
 ASSUMPTIONS = [
     "SetupData.connect/close are replaced by coroutines answering True/False; interface and Features instances are the real "
     "ones from the real set-up loop of pyatv.connect; the connected set is the set of protocols whose connect answered True",
+    "the features interface is read in every public way: get_feature, all_features() with and without include_unsupported, "
+    "in_state(every state but Unsupported); each must satisfy 'reported other than Unsupported => implemented'",
     "'the member does not fail merely because nothing implements it' is evaluated as: Relayer.relay(member) returns an "
     "instance attribute instead of raising NotSupportedError, and invoking the member through the device object (recorders "
     "in place of the implementations) with default-style arguments and with every other value of its enum-typed / "
@@ -206,6 +209,7 @@ def run(ctx, only=None, before=None, ops=None):
         fmembers = feature_members(patches)
         feats = sorted(FeatureName, key=lambda f: f.value)
         obs = []
+        af_obs = []     # what all_features() listed, to be compared with the model's allFeatures
 
         def evaluate(world, sc, holder, extra=None, tag=""):
             """the C13 oracle + observations for the model, in the state the device object is in now"""
@@ -214,6 +218,29 @@ def run(ctx, only=None, before=None, ops=None):
             where = tag and f" [{tag}]"
             base_case = dict({"scenario": sc, "holder": holder}, **(extra or {}))
             reported, backed, amap, todo = {}, {}, {}, []
+            # every public way of reading the features interface
+            ways = {}
+            for way, read in (("all_features()", lambda: world.atv.features.all_features()),
+                              ("all_features(include_unsupported=True)", lambda: world.atv.features.all_features(include_unsupported=True))):
+                try:
+                    got = read()
+                    ways[way] = {f.name: (got[f].state.name if f in got else "Unsupported") for f in feats}
+                    af_obs.append((dict(base_case, way=way), S, video, 1 if way.endswith("True)") else 0,
+                                   {getattr(k, "name", str(k)): v.state.name for k, v in got.items()}))
+                    extra_names = [k for k in got if k not in feats]
+                    if extra_names or (way.endswith("True)") and len(got) != len(feats)):
+                        ctx.disagree(dict(base_case, way=way), sorted(getattr(k, "name", str(k)) for k in got)[:80],
+                                     "one entry per feature name", where="all_features keys")
+                except Exception as e:
+                    ways[way] = {f.name: "err:" + type(e).__name__ for f in feats}
+            not_unsupported = [s_ for s_ in FeatureState if s_ != FeatureState.Unsupported]
+            ways["in_state(any state but Unsupported)"] = {}
+            for f in feats:
+                try:
+                    ways["in_state(any state but Unsupported)"][f.name] = (
+                        "reported" if world.atv.features.in_state(not_unsupported, f) else "Unsupported")
+                except Exception as e:
+                    ways["in_state(any state but Unsupported)"][f.name] = "err:" + type(e).__name__
             for f in feats:
                 try:
                     state = world.atv.features.get_feature(f).state.name
@@ -239,6 +266,17 @@ def run(ctx, only=None, before=None, ops=None):
                              f"connected {'+'.join(S)} ({key}, takeover holder {holder or 'none'}){where} reports {f.name}={state} "
                              f"(answered by {amap[f.name]}) but no connected protocol implements "
                              f"{', '.join('%s.%s' % m for m in members) or '(no member)'}")
+                for way, answers in ways.items():
+                    told = answers[f.name]
+                    ctx.note("read:" + way)
+                    if told != "Unsupported" and not told.startswith("err:") and not ok:
+                        ctx.fail(f"{tag or 'connect'}:{key}:{holder or '-'}:{f.name}:{way}",
+                                 dict(base_case, feature=f.name, way=way),
+                                 f"{way} -> {told}; members {members}: all NotSupportedError",
+                                 "some member the feature stands for is routed to an implementation",
+                                 f"connected {'+'.join(S)} ({key}, takeover holder {holder or 'none'}){where}: features.{way} reports "
+                                 f"{f.name}={told} but no connected protocol implements "
+                                 f"{', '.join('%s.%s' % m for m in members) or '(no member)'}")
                 if nontrivial:
                     for (i, m) in ok:
                         if i in h01.NINE:
@@ -363,8 +401,15 @@ def run(ctx, only=None, before=None, ops=None):
                         proto_lines.append(f"proto {proto} {c0} {c1}")
                         proto_obs.append((proto, video, rich, got))
                         ctx.note("get_feature:%s:%s" % (proto, "rich" if rich else "fresh"))
-        answers = ctx.lean(qs + proto_lines + ["failing"])
-        model_of = dict(zip(qs, answers))
+        aqs = sorted({f"allfeatures {h01.set_bits(S)} {video} {b}" for (_c, S, video, b, _l) in af_obs})
+        answers = ctx.lean(qs + aqs + proto_lines + ["failing"])
+        model_of = dict(zip(qs + aqs, answers))
+        for (case, S, video, b, listed) in af_obs:
+            model = kv(model_of[f"allfeatures {h01.set_bits(S)} {video} {b}"]) if model_of[f"allfeatures {h01.set_bits(S)} {video} {b}"] != "-" else {}
+            if model != listed:
+                diff = {n: (listed.get(n), model.get(n)) for n in set(listed) | set(model) if listed.get(n) != model.get(n)}
+                ctx.disagree(case, {n: v[0] for n, v in diff.items()}, {n: v[1] for n, v in diff.items()}, where="all_features entries")
+            ctx.validated(len(listed))
         for (sc, S, video, holder, reported, backed, amap) in obs:
             case = {"scenario": sc, "holder": holder}
             for what, impl, q in (("features", reported, f"features {h01.set_bits(S)} {video}"),
@@ -374,7 +419,7 @@ def run(ctx, only=None, before=None, ops=None):
                     diff = {n: (impl.get(n), model.get(n)) for n in impl if impl.get(n) != model.get(n)}
                     ctx.disagree(case, {n: v[0] for n, v in diff.items()}, {n: v[1] for n, v in diff.items()}, where=what)
                 ctx.validated(len(impl))
-        for (proto, video, rich, got), ans in zip(proto_obs, answers[len(qs):]):
+        for (proto, video, rich, got), ans in zip(proto_obs, answers[len(qs) + len(aqs):]):
             model = kv(ans)
             if model != got:
                 diff = {n: (got.get(n), model.get(n)) for n in got if got.get(n) != model.get(n)}
